@@ -20,28 +20,56 @@ Proof.
   subst d; vm_compute; repeat split; discriminate.
 Qed.
 
+Lemma expand_f_S f u c r : expand_f (S f) u (c :: r) =
+  if N.eqb c cBS then
+    match esc_step u r with
+    | Some (x, k) => x :: expand_f f u (skipn k r)
+    | None => c :: expand_f f u r
+    end
+  else c :: expand_f f u r.
+Proof. reflexivity. Qed.
+
+Lemma expand_f_fuel u : forall f f' s, (length s <= f)%nat -> (length s <= f')%nat -> expand_f f u s = expand_f f' u s.
+Proof.
+  induction f as [| f IH]; intros f' s H H'.
+  - destruct s; [| cbn [length] in H; lia]. destruct f'; reflexivity.
+  - destruct s as [| c r]; [destruct f'; reflexivity |].
+    destruct f' as [| f']; [cbn [length] in H'; lia |]. cbn [length] in H, H'.
+    rewrite !expand_f_S. destruct (N.eqb c cBS).
+    + destruct (esc_step u r) as [[x k] |].
+      * f_equal. apply IH; rewrite skipn_length; lia.
+      * f_equal. apply IH; lia.
+    + f_equal. apply IH; lia.
+Qed.
+
 Lemma expand_raw u c r : c <> 92 -> expand u (c :: r) = c :: expand u r.
-Proof. intros H. cbn [expand]. unfold cBS. destruct (N.eqb_spec c 92); [contradiction | reflexivity]. Qed.
+Proof.
+  intros H. unfold expand. cbn [length]. rewrite expand_f_S. unfold cBS.
+  destruct (N.eqb_spec c 92); [contradiction | reflexivity].
+Qed.
+
+Lemma expand_esc u r x k : esc_step u r = Some (x, k) -> expand u (92 :: r) = x :: expand u (skipn k r).
+Proof.
+  intros H. unfold expand. cbn [length]. rewrite expand_f_S. change (92 =? cBS) with true. cbv iota.
+  rewrite H. f_equal. apply expand_f_fuel; rewrite ?skipn_length; lia.
+Qed.
 
 Lemma expand_simple u d x r : simple_esc d = Some x -> expand u (92 :: d :: r) = x :: expand u r.
-Proof. intros H. cbn [expand]. change (negb (92 =? cBS)) with false. cbv iota. rewrite H. reflexivity. Qed.
-
-Lemma simple_hex_none : simple_esc 120 = None /\ simple_esc 117 = None /\ simple_esc 85 = None.
-Proof. vm_compute. auto. Qed.
+Proof. intros H. rewrite (expand_esc u (d :: r) x 1); [reflexivity |]. unfold esc_step. rewrite H. reflexivity. Qed.
 
 Lemma expand_x u h1 h2 r : ishex h1 = true -> ishex h2 = true ->
   expand u (92 :: 120 :: h1 :: h2 :: r) = (hexval h1 * 16 + hexval h2) :: expand u r.
 Proof.
-  intros H1 H2. cbn [expand]. change (negb (92 =? cBS)) with false. cbv iota.
-  change (simple_esc 120) with (@None N). cbv iota. change (isoct 120) with false. cbv iota.
+  intros H1 H2. rewrite (expand_esc u _ (hexval h1 * 16 + hexval h2) 3); [reflexivity |].
+  unfold esc_step. change (simple_esc 120) with (@None N). cbv iota. change (isoct 120) with false. cbv iota.
   change (120 =? 120) with true. cbv iota. rewrite H1, H2. reflexivity.
 Qed.
 
 Lemma expand_u u h1 h2 h3 h4 r : ishex h1 = true -> ishex h2 = true -> ishex h3 = true -> ishex h4 = true ->
   expand u (92 :: 117 :: h1 :: h2 :: h3 :: h4 :: r) = hv4 h1 h2 h3 h4 :: expand u r.
 Proof.
-  intros H1 H2 H3 H4. cbn [expand]. change (negb (92 =? cBS)) with false. cbv iota.
-  change (simple_esc 117) with (@None N). cbv iota. change (isoct 117) with false. cbv iota.
+  intros H1 H2 H3 H4. rewrite (expand_esc u _ (hv4 h1 h2 h3 h4) 5); [reflexivity |].
+  unfold esc_step. change (simple_esc 117) with (@None N). cbv iota. change (isoct 117) with false. cbv iota.
   change (117 =? 120) with false. cbv iota. change (117 =? 117) with true. cbv iota.
   rewrite H1, H2, H3, H4. reflexivity.
 Qed.
@@ -52,8 +80,9 @@ Lemma expand_U h1 h2 h3 h4 h5 h6 h7 h8 r :
   expand true (92 :: 85 :: h1 :: h2 :: h3 :: h4 :: h5 :: h6 :: h7 :: h8 :: r)
   = (hv4 h1 h2 h3 h4 * 65536 + hv4 h5 h6 h7 h8) :: expand true r.
 Proof.
-  intros H1 H2 H3 H4 H5 H6 H7 H8. cbn [expand]. change (negb (92 =? cBS)) with false. cbv iota.
-  change (simple_esc 85) with (@None N). cbv iota. change (isoct 85) with false. cbv iota.
+  intros H1 H2 H3 H4 H5 H6 H7 H8.
+  rewrite (expand_esc true _ (hv4 h1 h2 h3 h4 * 65536 + hv4 h5 h6 h7 h8) 9); [reflexivity |].
+  unfold esc_step. change (simple_esc 85) with (@None N). cbv iota. change (isoct 85) with false. cbv iota.
   change (85 =? 120) with false. cbv iota. change (85 =? 117) with false. cbv iota.
   change (true && (85 =? 85)) with true. cbv iota.
   rewrite H1, H2, H3, H4, H5, H6, H7, H8. reflexivity.
@@ -150,9 +179,9 @@ Proof.
 Qed.
 
 Lemma clean_hex2 q c : (q = 39 \/ q = 34) -> clean q (hex2 c).
-Proof. intros. unfold hex2. repeat constructor; apply clean_hd; assumption. Qed.
+Proof. intros. unfold hex2. repeat (constructor; [apply clean_hd; assumption |]). constructor. Qed.
 Lemma clean_hex4 q c : (q = 39 \/ q = 34) -> clean q (hex4 c).
-Proof. intros. unfold hex4. repeat constructor; apply clean_hd; assumption. Qed.
+Proof. intros. unfold hex4. repeat (constructor; [apply clean_hd; assumption |]). constructor. Qed.
 Lemma clean_hex8 q c : (q = 39 \/ q = 34) -> clean q (hex8 c).
 Proof. intros. unfold hex8. apply Forall_app. split; apply clean_hex4; assumption. Qed.
 
@@ -168,9 +197,9 @@ Proof.
   assert (HEX : forall d l, d <> 10 -> clean q l ->
                 exists pre, clean q pre /\ strip_pairs ((92 :: d :: l) ++ r) = pre ++ strip_pairs r).
   { intros d l Hd Hl. exists l. split; [assumption |]. cbn [app]. rewrite strip_pairs_pair by assumption.
-    apply clean_raw. assumption. }
+    apply (clean_raw q). assumption. }
   assert (RAW : c <> 92 -> c <> q -> exists pre, clean q pre /\ strip_pairs ([c] ++ r) = pre ++ strip_pairs r).
-  { intros A B. exists [c]. split; [repeat constructor; assumption |]. apply clean_raw. repeat constructor; assumption. }
+  { intros A B. exists [c]. split; [constructor; [split; assumption | constructor] |]. apply (clean_raw q). constructor; [split; assumption | constructor]. }
   destruct (N.eqb_spec c q) as [Ecq | Ncq]; cbn [orb].
   { apply ESC. destruct Hq; subst; discriminate. }
   destruct (N.eqb_spec c 92) as [E | N92]. { apply ESC. subst; discriminate. }
@@ -222,7 +251,7 @@ Section Str.
     pose proof (choose_quote_cases s) as Hq. set (q := choose_quote s) in *.
     assert (Hm : memN cSQ (q :: flat_map (repr_char pr q) s ++ [q])
                  || memN cDQ (q :: flat_map (repr_char pr q) s ++ [q]) = true).
-    { unfold memN, cSQ, cDQ. cbn [existsb]. destruct Hq as [-> | ->]; reflexivity. }
+    { unfold memN, cSQ, cDQ. cbn [existsb]. destruct Hq as [-> | ->]; [reflexivity | apply orb_true_iff; right; reflexivity]. }
     rewrite Hm.
     assert (Hqq : negb ((q =? cSQ) || (q =? cDQ)) = false) by (destruct Hq as [-> | ->]; reflexivity).
     rewrite Hqq. rewrite last_is_snoc. cbn [negb]. rewrite removelast_last.
@@ -257,7 +286,6 @@ Qed.
 Lemma pos_lt_pow2 p : N.pos p < 2 ^ N.of_nat (Pos.size_nat p).
 Proof.
   induction p as [p IH | p IH |]; cbn [Pos.size_nat]; try rewrite Nat2N.inj_succ, N.pow_succ_r'; try lia.
-  reflexivity.
 Qed.
 
 Lemma dec_ok n : digits_val (dec n) = n /\ Forall (fun c => isdigit c = true) (dec n) /\ dec n <> [].
